@@ -42,7 +42,7 @@ def main():
                     ok = False
                 if err is None:
                     ctx.check(ok, 'bv:success-implies-SEC1-4.1.6-conditions')
-                    kt = m.load(key)
+                    kt = [None, T.fld(m, key, T.PUB_T, 'point'), T.fld(m, key, T.PUB_T, 'pointBytes')]
                     kq = m.toy_pget(kt[1])
                     ctx.check(tm.eq(kq, Q, W), 'bv:returned-key=r^-1(sR-eG)')
                     pb = m.slice_elems(kt[2])
